@@ -163,6 +163,9 @@ func r01_6(c *Ctx) {
 					guarded = true
 				}
 			}
+			if !guarded && digitsOnlyLoopGuards(fn, call) {
+				guarded = true
+			}
 			c.check(guarded, name, P.ipos(call), "the parse is guarded by a digits-only test of the same value",
 				cn+" accepts a sign prefix (\"+5\", \"-0\") and is not guarded by a digits-only test: the spec admits only ASCII digits in a retry value")
 		})
@@ -304,6 +307,29 @@ func r01_1(c *Ctx) {
 			}
 			s, okS := constString(ret.Results[0])
 			b, okB := constBool(ret.Results[1])
+			if !okS && okB && b {
+				// table form: the accepted name is an element of a package-level table of names, returned
+				// under equality of that element with the input
+				if tbl, elem, ok := tableElement(P, ret.Results[0]); ok {
+					g := false
+					for _, ifi := range ifsIn(gf) {
+						cnd := decodeIf(ifi)
+						if cnd.Y == nil || cnd.Op != token.EQL {
+							continue
+						}
+						x, y := stripConvAll(cnd.X), stripConvAll(cnd.Y)
+						if ((x == elem && y == ssa.Value(gf.Params[0])) || (y == elem && x == ssa.Value(gf.Params[0]))) && edgeDominates(ifi.Block(), cnd.succWhen(true), ret.Block()) {
+							g = true
+						}
+					}
+					inLoop := len(loopsContaining(gf, ret.Block())) > 0 || len(loopsOf(gf)) > 0
+					for _, v := range tbl {
+						c.check(g && inLoop && K[v] != "", "parser.getFieldName:case("+v+")", P.ipos(ret), "returns ("+v+", true) exactly when the input equals it (table entry)", "getFieldName accepts a name that is not a field-name constant, or not under equality with it")
+						seen[v] = true
+					}
+					continue
+				}
+			}
 			if !okS || !okB {
 				c.undecided("parser.getFieldName:return", P.ipos(ret), "non-constant return")
 				continue
@@ -1428,8 +1454,19 @@ func r01_9(c *Ctx, part string) {
 					lenOK = true
 				}
 			}
+			// strings.CutPrefix(data, BOM): the stored value is its first result, the guard its second
+			cutForm := false
+			if ex, ok := strip.Val.(*ssa.Extract); ok && ex.Index == 0 && ex.Tuple == ssa.Value(call) && calleeName(call) == "strings.CutPrefix" {
+				lenOK, cutForm = true, true
+			}
 			g := guardedByBool(f, strip.Block(), isFld("removeBOM"), true) && guardedByBool(f, strip.Block(), isFld("started"), false) &&
-				guardedByBool(f, strip.Block(), func(v ssa.Value) bool { return v == ssa.Value(call) }, true) && isFld("data")(call.Call.Args[0])
+				guardedByBool(f, strip.Block(), func(v ssa.Value) bool {
+					if cutForm {
+						e, ok := v.(*ssa.Extract)
+						return ok && e.Index == 1 && e.Tuple == ssa.Value(call)
+					}
+					return v == ssa.Value(call) && calleeName(call) == "strings.HasPrefix"
+				}, true) && isFld("data")(call.Call.Args[0])
 			c.check(lenOK && g, name, P.ipos(strip), "exactly the three BOM bytes are removed, only when enabled, not yet started and the data starts with the BOM", "the BOM strip is not (data[3:] under removeBOM && !started && HasPrefix(data, BOM)): a BOM inside the stream is stripped or a leading one is kept")
 			// started is set with the strip
 			setStarted := false
@@ -1455,6 +1492,14 @@ func r01_9(c *Ctx, part string) {
 			if call, ok := isModCall(in, "(*parser.FieldParser).RemoveBOM"); ok {
 				if b, isC := constBool(call.Call.Args[1]); isC && b {
 					on = true
+				}
+			}
+			// or the field parser is built with the option already set
+			if st, ok := in.(*ssa.Store); ok {
+				if _, ok := isFieldSel(st.Addr, "parser.FieldParser", "removeBOM"); ok {
+					if b, isC := constBool(st.Val); isC && b {
+						on = true
+					}
 				}
 			}
 		})
@@ -1508,6 +1553,9 @@ func r01_9crlf(c *Ctx) {
 		return
 	}
 	if newlineIndexLib(c, ni, "crlf") {
+		return
+	}
+	if newlineIndexLoop(c, ni, "crlf") {
 		return
 	}
 	rets := returnsOf(ni)
@@ -1763,4 +1811,219 @@ func r01_12(c *Ctx) {
 	c.check(why == "" && nExit > 0 && nStay > 0, name+":scan-loop-exit", P.ipos(ni), "one iteration leaves the loop exactly at the end of the data or at a line break after a non-empty line ("+itoa(nExit)+" exit / "+itoa(nStay)+" continue paths)",
 		"the scan loop does not stop exactly at an event boundary: "+why)
 	c.ok(name+":scan-loop-paths", P.ipos(ni), itoa(len(paths))+" paths through one iteration enumerated")
+}
+
+// digitsOnlyLoopGuards: the parse is reached only after a `for _, r := range <the parsed string>` loop
+// ran to completion, every iteration of which either established '0' <= r <= '9' or left the function
+// without reaching the parse (the hand-written form of a digits-only test).
+func digitsOnlyLoopGuards(top *ssa.Function, parse *ssa.Call) bool {
+	fn := parse.Parent()
+	arg := parse.Call.Args[0]
+	for _, b := range fn.Blocks {
+		for _, in := range b.Instrs {
+			rng, ok := in.(*ssa.Range)
+			if !ok || !(rng.X == arg || sameValue(rng.X, arg) || exprShape(rng.X, 0) == exprShape(arg, 0)) {
+				continue
+			}
+			var next *ssa.Next
+			for _, r := range *rng.Referrers() {
+				if n, ok := r.(*ssa.Next); ok {
+					next = n
+				}
+			}
+			if next == nil {
+				continue
+			}
+			var L *Loop
+			for _, l := range loopsContaining(fn, next.Block()) {
+				if L == nil || len(l.Blocks) < len(L.Blocks) {
+					L = l
+				}
+			}
+			if L == nil {
+				continue
+			}
+			isOK := func(v ssa.Value) bool { e, ok := v.(*ssa.Extract); return ok && e.Tuple == ssa.Value(next) && e.Index == 0 }
+			isRune := func(v ssa.Value) bool {
+				for _, sv := range sources(v) {
+					e, ok := stripConvAll(sv).(*ssa.Extract)
+					if !ok || e.Tuple != ssa.Value(next) || e.Index != 2 {
+						return false
+					}
+				}
+				return true
+			}
+			stopEdge := func(e cfgEdge) bool {
+				t := e.From.Succs[e.Idx]
+				return !L.Blocks[t] || t == L.Head
+			}
+			paths, okP := walkPaths(next.Block(), instrIndex(next)+1, 1024, nil, nil, stopEdge)
+			if !okP || len(paths) == 0 {
+				continue
+			}
+			good, sawDone := true, false
+			for _, p := range paths {
+				if p.EndEdge == nil {
+					continue // returns from inside the loop never reach the parse
+				}
+				lo, hi := negInf, posInf
+				done := false
+				for e := range p.St.Edges {
+					if len(e.From.Instrs) == 0 {
+						continue
+					}
+					ifi, isIf := e.From.Instrs[len(e.From.Instrs)-1].(*ssa.If)
+					if !isIf {
+						continue
+					}
+					if sT, ok := boolEdge(ifi, isOK); ok && e.Idx != sT {
+						done = true
+					}
+					if l, h, okE, ok := intEdgeSets(ifi, isRune, negInf); ok && okE[e.Idx] {
+						if l[e.Idx] > lo {
+							lo = l[e.Idx]
+						}
+						if h[e.Idx] < hi {
+							hi = h[e.Idx]
+						}
+					}
+				}
+				leaves := !L.Blocks[p.EndEdge.From.Succs[p.EndEdge.Idx]]
+				switch {
+				case leaves && done:
+					sawDone = true
+					if !edgeDominates(p.EndEdge.From, p.EndEdge.Idx, parse.Block()) {
+						good = false
+					}
+				case leaves:
+					// an early exit: it must not reach the parse
+					if reachesAvoiding(atEdge(p.EndEdge.From, p.EndEdge.Idx), parse, nil, nil) {
+						good = false
+					}
+				default:
+					// next iteration: this rune was a digit
+					if lo > hi {
+						continue
+					}
+					if !(lo >= '0' && hi <= '9') {
+						good = false
+					}
+				}
+			}
+			if good && sawDone {
+				return true
+			}
+		}
+	}
+	_ = top
+	return false
+}
+
+// tableElement: v is an element of a package-level array/slice of strings (loaded through an index or a
+// range); returns the table's contents as initialised in the package initialiser.
+func tableElement(P *Program, v ssa.Value) (table []string, elem ssa.Value, ok bool) {
+	elem = stripConvAll(v)
+	var g *ssa.Global
+	switch x := elem.(type) {
+	case *ssa.UnOp:
+		if ia, isIA := x.X.(*ssa.IndexAddr); isIA && x.Op == token.MUL {
+			switch base := ia.X.(type) {
+			case *ssa.Global:
+				g = base
+			case *ssa.UnOp:
+				g, _ = base.X.(*ssa.Global)
+			}
+		}
+	case *ssa.Index:
+		if u, isU := x.X.(*ssa.UnOp); isU {
+			g, _ = u.X.(*ssa.Global)
+		}
+	case *ssa.Extract:
+		// value of `for _, e := range table`
+		if nx, isN := x.Tuple.(*ssa.Next); isN {
+			if rg, isR := nx.Iter.(*ssa.Range); isR {
+				if u, isU := rg.X.(*ssa.UnOp); isU {
+					g, _ = u.X.(*ssa.Global)
+				}
+			}
+		}
+	}
+	if g == nil || g.Pkg == nil {
+		return nil, nil, false
+	}
+	init := g.Pkg.Func("init")
+	if init == nil {
+		return nil, nil, false
+	}
+	vals := map[int64]string{}
+	good := true
+	eachInstr(init, func(in ssa.Instruction) {
+		st, isSt := in.(*ssa.Store)
+		if !isSt {
+			return
+		}
+		ia, isIA := st.Addr.(*ssa.IndexAddr)
+		if !isIA {
+			if st.Addr == ssa.Value(g) {
+				// slice global: = arr[:] with arr filled element-wise
+				if sl, isSl := st.Val.(*ssa.Slice); isSl {
+					if al, isAl := sl.X.(*ssa.Alloc); isAl {
+						for _, r := range *al.Referrers() {
+							if ia2, ok := r.(*ssa.IndexAddr); ok {
+								idx, okI := constInt(ia2.Index)
+								for _, rr := range *ia2.Referrers() {
+									if s2, ok := rr.(*ssa.Store); ok && s2.Addr == ssa.Value(ia2) {
+										sv, okS := constString(s2.Val)
+										if !okI || !okS {
+											good = false
+											continue
+										}
+										vals[idx] = sv
+									}
+								}
+							}
+						}
+					}
+				}
+			}
+			return
+		}
+		if ia.X != ssa.Value(g) {
+			return
+		}
+		idx, okI := constInt(ia.Index)
+		sv, okS := constString(st.Val)
+		if !okI || !okS {
+			good = false
+			return
+		}
+		vals[idx] = sv
+	})
+	// the table must not be written anywhere else
+	for _, fn := range P.Funcs {
+		if fn == init {
+			continue
+		}
+		eachInstr(fn, func(in ssa.Instruction) {
+			if st, ok := in.(*ssa.Store); ok {
+				if st.Addr == ssa.Value(g) {
+					good = false
+				}
+				if ia, ok := st.Addr.(*ssa.IndexAddr); ok && (ia.X == ssa.Value(g)) {
+					good = false
+				}
+			}
+		})
+	}
+	if !good || len(vals) == 0 {
+		return nil, nil, false
+	}
+	for i := int64(0); i < int64(len(vals)); i++ {
+		sv, ok := vals[i]
+		if !ok {
+			return nil, nil, false
+		}
+		table = append(table, sv)
+	}
+	return table, elem, true
 }
